@@ -152,12 +152,20 @@ def corruptions():
         r = [list(x) for x in rows]; r[i][2] = "URGENT"; emit(f"unknown priority on row {i}", r)
         r = [list(x) for x in rows]; r[i][2] = "query"; emit(f"lower-case priority on row {i}", r)
     for i in later:
+        for bad in ("URGENT", "query", "Batch_Pipeline", "2", " INTERACTIVE"):
+            r = [list(x) for x in rows]; r[i][2] = bad; emit(f"priority {bad!r} on later row {i}", r)
+        for bad in ("0", "0.0", "-0.0", "1e-9", " 3"):
+            r = [list(x) for x in rows]; r[i][1] = bad; emit(f"arrival {bad!r} on later row {i}", r)
         r = [list(x) for x in rows]; r[i][2] = "BATCH_PIPELINE"; emit(f"priority set on later row {i}", r)
         r = [list(x) for x in rows]; r[i][1] = "0.0"; emit(f"arrival set on later row {i}", r)
         r = [list(x) for x in rows]; r[i][4] = "op9"; emit(f"undefined parent on row {i}", r)
         r = [list(x) for x in rows]; r[i][4] = r[i][3]; emit(f"self parent on row {i}", r)
     for i in range(len(rows)):
-        r = [list(x) for x in rows]; r[i][6] = "cubic"; emit(f"unknown scaling law on row {i}", r)
+        for bad in ("cubic", "CONST", "", "linear", "Linear3"):
+            r = [list(x) for x in rows]; r[i][6] = bad; emit(f"scaling law {bad!r} on row {i}", r)
+    for i in later:
+        for bad in ("op9", "op1;op9", "OP1", "1"):
+            r = [list(x) for x in rows]; r[i][4] = bad; emit(f"parents {bad!r} on row {i}", r)
     r = [list(x) for x in rows]; r[1][4] = "op3"; emit("parent defined later (row 1 -> op3)", r)
     return out
 
